@@ -62,7 +62,7 @@ REQUIRED_COUNTERS = [
     "new_transition_priority_checks",
     "update_calls",
 ]
-CASE_TIMEOUT_S = 300
+CASE_TIMEOUT_S = 1800  # no blocking operation exists in a case; generous because a loaded host stalled 40 ms cases for > 300 s
 
 ALPHAS = [0.0, 0.3, 0.6, 1.0]
 BETAS = [0.0, 0.4, 1.0]
